@@ -5,6 +5,8 @@ import AscentVerif.Model.Hir
 import AscentVerif.Model.EnginePhys
 import AscentVerif.Model.EnginePhysPar
 import AscentVerif.Model.EnginePhysTimeout
+import AscentVerif.Model.EnginePhysLat
+import AscentVerif.Model.StdOps
 import AscentVerif.Proofs.PlanSwapBody
 namespace AscentVerif.Driver
 open AscentVerif AscentVerif.Std AscentVerif.Engine
@@ -194,10 +196,26 @@ def doRun (s : EngStore) (inst : String) : Option (EngStore × String) := do
     | .timedOut _ => some (s, "timedout?")
     | .outOfFuel => some (s, "nofuel")
 
+/-- the compiler's `rule_desugar_repeated_vars` (model: `Surface.repItems`) on a core program: the physical-index models take their
+rules as `compile_rule_to_ir_rule` receives them (an argument mentioning a variable first bound earlier IN THE SAME clause has been
+replaced by a fresh variable plus an equality condition); the filter-level engine model matches repeated variables directly -/
+def desugRepeated (p : SProgram) : SProgram :=
+  let step (acc : List SRule × Nat) (r : SRule) : List SRule × Nat :=
+    let flat : List (Surface.FItem Ex Bx Gx Px Ax) := r.body.map fun
+      | .clause rel args conds => .clause rel (args.map fun | .var v => Surface.SArg.var v | .expr e => Surface.SArg.expr e) conds
+      | .cond c => .cond c
+      | .gen v g => .gen v g
+      | .agg a => .agg a
+    let out := Surface.repItems stdOps flat 0 [] acc.2
+    match out.1.mapM Surface.FItem.toCore with
+    | some body => (acc.1 ++ [{ r with body := body }], out.2)
+    | none => (acc.1 ++ [r], acc.2)
+  { p with rules := (p.rules.foldl step ([], 0)).1 }
+
 /-- `run()` through the physical-index engine model (`Model/EnginePhys.lean`): relational, aggregation-free programs only -/
 def doRunPhys (s : EngStore) (inst : String) : Option (EngStore × String) := do
     let i ← (s.insts.find? (·.1 == inst)).map (·.2)
-    let p := i.pd.prog
+    let p := desugRepeated i.pd.prog
     if p.rels.any (·.lat) || p.rules.any (fun r => r.body.any fun | .agg _ => true | _ => false) then some (s, "na")
     else
       let ix := Phys.ixSetsOf stdVars p
@@ -208,10 +226,26 @@ def doRunPhys (s : EngStore) (inst : String) : Option (EngStore × String) := do
         some ({ s with insts := (inst, { i with st := st, iters := ps.iters }) :: s.insts.filter (·.1 != inst) }, "ok")
       | none => some (s, "nofuel")
 
+/-- `run()` through the physical-index engine model WITH lattices (`Model/EnginePhysLat.lean`): aggregation-free programs -/
+def doRunPhysLat (s : EngStore) (inst : String) : Option (EngStore × String) := do
+    let i ← (s.insts.find? (·.1 == inst)).map (·.2)
+    let p := desugRepeated i.pd.prog
+    if p.rules.any (fun r => r.body.any fun | .agg _ => true | _ => false) then some (s, "na")
+    else
+      let ix := Phys.ixSetsOf stdVars p
+      if !PhysLat.latPlanOk stdVars p ix then some (s, "na-plan")
+      else
+        let s0 : PhysLat.XSt := (List.range i.st.length).map fun r => { rows := (relSt i.st r).rows, full := [], idxs := [] }
+        match PhysLat.run (interp (kindOf i.pd)) stdVars p ix i.pd.order defaultFuel s0 with
+        | some ps =>
+          let st : St := ps.st.map fun pr => { rows := pr.rows, idx := List.range pr.rows.length }
+          some ({ s with insts := (inst, { i with st := st, iters := ps.iters }) :: s.insts.filter (·.1 != inst) }, "ok")
+        | none => some (s, "nofuel")
+
 /-- `run_timeout` through the physical-index engine model: the `k`-th clock reading finds the deadline passed -/
 def doRunPhysTimeout (s : EngStore) (inst : String) (k : Nat) : Option (EngStore × String) := do
     let i ← (s.insts.find? (·.1 == inst)).map (·.2)
-    let p := i.pd.prog
+    let p := desugRepeated i.pd.prog
     if p.rels.any (·.lat) || p.rules.any (fun r => r.body.any fun | .agg _ => true | _ => false) then some (s, "na")
     else
       let ix := Phys.ixSetsOf stdVars p
@@ -241,7 +275,7 @@ def demoSched (seed : Nat) : PhysPar.Sched Ex Bx Gx Px Ax where
 /-- `run()` through the PARALLEL physical-index engine model (`Model/EnginePhysPar.lean`) in a pool of `threads` workers -/
 def doRunPhysPar (s : EngStore) (inst : String) (threads : Nat) : Option (EngStore × String) := do
     let i ← (s.insts.find? (·.1 == inst)).map (·.2)
-    let p := i.pd.prog
+    let p := desugRepeated i.pd.prog
     if p.rels.any (·.lat) || p.rules.any (fun r => r.body.any fun | .agg _ => true | _ => false) then some (s, "na")
     else
       let ix := Phys.ixSetsOf stdVars p
@@ -299,6 +333,7 @@ def handleEng (s : EngStore) : List Sexp → Option (EngStore × String)
     else none
   | [.atom "run", .atom inst] => doRun s inst
   | [.atom "runp", .atom inst] => doRunPhys s inst
+  | [.atom "runpl", .atom inst] => doRunPhysLat s inst
   | [.atom "dump", .atom inst] => do
     let i ← (s.insts.find? (·.1 == inst)).map (·.2)
     some (s, dumpSt i.st)
